@@ -69,7 +69,12 @@ def check(ctx):
     # the value of fit as a decision tree over its return conditions, below the test for an empty calibration set
     R = s.ret()
     EMPTY = ("cmp", "==", ncal, ("const", 0))
-    main = [R[3]] if R[0] == "phi" and R[1] == EMPTY else ([R[2]] if R[0] == "phi" and R[1] == ("cmp", "!=", ncal, ("const", 0)) else [R])
+    def _is_empty_model(t):
+        return t[0] == "call" and t[1][0] == "attr" and t[1][2] == "_empty_gaussian_model"
+    if R[0] == "phi" and (_is_empty_model(R[2]) or _is_empty_model(R[3])):
+        main = [R[3] if _is_empty_model(R[2]) else R[2]]  # (whether the test is the right one is R2's question)
+    else:
+        main = [R]
     ctx.require(len(main) == 1 and main[0][0] == "phi", f"{f.where()}: main return is not 'small groups ? combined : per-group fit'")
     COND, COMB, PER = main[0][1], main[0][2], main[0][3]
     # ---- R1 -----------------------------------------------------------------------------------------
@@ -273,7 +278,7 @@ def check(ctx):
             bt = t
         elif bt is None and t[0] == "call" and t[1][0] == "attr" and t[1][2] == "reset_index" and t[1][1][0] == "call" and t[1][1][1][0] == "attr" \
                 and t[1][1][1][2] == "apply" and t[1][1][1][1][0] == "call" and t[1][1][1][1][1][0] == "attr" and t[1][1][1][1][1][2] == "groupby" \
-                and t[1][1][1][1][1][1][0] == "call" and t[1][1][1][1][1][1][1][0] == "attr" and t[1][1][1][1][1][1][1][2] == "assign":
+                and t[1][1][1][1][1][1][0] in ("call", "setitem"):
             bt = t
     okb = False
     if bt is not None:
@@ -301,10 +306,18 @@ def check(ctx):
             okb = okb and gb[0] == "call" and gb[1][0] == "attr" and gb[1][2] == "groupby" and gb[2] == (AGG,)
             src = gb[1][1] if okb else None
             if okb:
-                kws = dict(src[3]) if src[0] == "call" and src[1][0] == "attr" and src[1][2] == "assign" else {}
+                # the grouped frame: the nonreporting units with this level's unadjusted bounds as two more columns (assign(..) and
+                # copy() + column assignment are one form in the def-use engine)
+                kws, base_ = {}, src
+                while base_[0] == "setitem":
+                    if base_[2][0] == "const":
+                        kws.setdefault(base_[2][1], base_[3])
+                    base_ = base_[1]
+                while base_[0] == "call" and base_[1][0] == "attr" and base_[1][2] == "copy" and not base_[2]:
+                    base_ = base_[1][1]
                 okb = (kws.get("nonreporting_lower_bounds") == ("sub", ("attr", SELF, "alpha_to_nonreporting_lower_bounds"), ("param", "alpha"))
                        and kws.get("nonreporting_upper_bounds") == ("sub", ("attr", SELF, "alpha_to_nonreporting_upper_bounds"), ("param", "alpha"))
-                       and src[1][1] == ("param", "nonreporting_units"))
+                       and base_ == ("param", "nonreporting_units"))
     ctx.ob("C15.R4.sums", f"{af.qualname}|per-group sums of weighted unadjusted bounds and of weights", okb, af.where(),
            "per group: S(w*L), S(w*U), W = S(w), SS = S(w^2) over its nonreporting units, with this level's unadjusted bounds" if okb
            else "per-group sums of the unadjusted unit bounds / weights are not the documented ones")
